@@ -8,11 +8,18 @@ import runtime_h as rh
 
 RULE = ("(max_dt, current, target) triples (max_dt from 0.001 to 250 s): targets at exact multiples of max_dt from current, +-1..2 ulps and +- nanoseconds around them, "
         "random offsets within +-200 steps, current times at scales 0, 1, 1e3, 2^20, earlier/equal/later; both runtimes; "
-        "distinct by (runtime, max_dt, cur, out); non-trivial = backward travel, or not an exact multiple, or max_dt != 0.1")
+        "distinct by (runtime, max_dt, cur, out); non-trivial = backward travel, or not an exact multiple, or max_dt != 0.1; "
+        "reconfigured-filter: fixed histories of a Python managed filter whose wrapped filter's configured maximum step is changed between moves "
+        "(live ConfigView on an edited dict, replaced Config, mutated attribute; tightened and relaxed, forwards and backwards, with and without a reading); "
+        "later-generation: in one process, a generation configured with a dict naming a large max_dt_sec is followed by generations with no "
+        "configuration, a dict that does not mention max_dt_sec, and a dict naming another one (C++ constant read back; Python filter driven through a move)")
 NOTE = ["the universal theorems (direction, bounded, sum, no step when equal) are over exact rational arithmetic; the binary64 instance of the "
         "same generic `plan` definition is compared bit-for-bit with both runtimes; float versions of the four clauses are evaluated per run "
         "(tests, with slack 1e-9 + 4 ulp), not proven",
-        "C++ header compiled with g++ -std=c++20 -O0 -ffp-contract=off against a recording Impl (no Eigen needed)"]
+        "C++ header compiled with g++ -std=c++20 -O0 -ffp-contract=off against a recording Impl (no Eigen needed)",
+        "reconfigured-filter: the maximum every move is held to is the one configured on the wrapped filter when the move is made (tests, same four clauses)",
+        "later-generation: the maximum of a filter generated without naming max_dt_sec is the declared default of the back-end's Config, "
+        "whatever was generated before it in the same process (tests)"]
 PARTIAL = ["binary64 rounding inside the plan is mirrored (Lean native Float), not proven about",
            "C++: the no-control/no-calibration combination is exercised by C12 only"]
 
@@ -96,6 +103,8 @@ def run(ctx):
                 ctx.broke(f"correspondence:plan ({name} vs Lean floatTime plan, bit-exact)", {"model": want, "impl": got}, case)
     two_segment_ticks(ctx, exe)
     generated_max_dt(ctx)
+    reconfigured_filter(ctx)
+    later_generation(ctx)
     return core.finish(ctx, audit, NOTE, RULE, PARTIAL)
 
 
@@ -125,6 +134,151 @@ def generated_max_dt(ctx):
         if got != float(m):
             ctx.fail("plan:cpp:generated-max-dt", f"the generated C++ filter tells the runtime max_dt_sec = {got!r}, configured {m!r}"
                      + (": every whole step is longer than the configured maximum" if got > m else ""), case)
+
+
+def reconfigured_filter(ctx):
+    """the configured maximum step of the filter a Python ManagedFilter wraps is changed AFTER the managed filter was built (the
+    design UI's live ConfigView on a parameter dict that the caller edits; `ekf.config` replaced by another Config; an attribute
+    of a plain configuration object assigned): every later move is held to the maximum configured when the move is made.
+    Inputs are fixed; consumes nothing from ctx.rng"""
+    from formak import python, runtime
+    try:
+        from formak.ui_state_machine import ConfigView
+    except Exception:      # the design UI is optional
+        ConfigView = None
+    from types import SimpleNamespace
+    # (new max_dt or None = leave as is, reading time or None, output time)
+    histories = [
+        (10.0, 0.25, [(None, 10.6, 11.0), (0.04, None, 11.3), (None, None, 10.1), (2.0, None, 12.0), (0.013, 10.55, 10.5), (0.25, None, 10.55)]),
+        (-3.0, 0.5, [(None, None, -1.75), (0.125, None, -4.0), (0.125, -3.5, -3.0), (0.001, None, -3.45), (10.0, -30.0, 0.0), (0.1, None, -29.75)]),
+        (0.0, 250.0, [(1.0, None, 7.5), (0.05, 0.33, -0.2), (0.05, None, 0.33), (0.1, 0.0, 0.3)]),
+    ]
+
+    def setters():
+        if ConfigView is not None:
+            def mk_view(m):
+                params = {"max_dt_sec": m}
+                return ConfigView(params), (lambda ekf, v: params.__setitem__("max_dt_sec", v))
+            yield "ConfigView on an edited dict", mk_view
+        yield "config replaced by a new Config", (lambda m: (python.Config(max_dt_sec=m), (lambda ekf, v: setattr(ekf, "config", python.Config(max_dt_sec=v)))))
+        yield "attribute of the configuration assigned", (lambda m: (SimpleNamespace(max_dt_sec=m), (lambda ekf, v: setattr(ekf.config, "max_dt_sec", v))))
+
+    for how, mk in setters():
+        for t0, m0, ticks in histories:
+            ekf = rh.RecEkf(m0, 1)
+            ekf.config, change = mk(m0)
+            mf = runtime.ManagedFilter(ekf, t0, (), None)
+            held_t, m = t0, m0
+            for j, (new_m, ts, out) in enumerate(ticks):
+                if new_m is not None:
+                    change(ekf, new_m); m = new_m
+                configured = float(ekf.config.max_dt_sec)
+                if configured != m:     # the configuration object did not take the edit: nothing to demand
+                    ctx.count("reconfigured-filter:edit-not-visible"); break
+                before = len(rh.flatten(mf.state))
+                r = mf.tick(out, control="u", readings=[runtime.StampedReading(ts, 0)] if ts is not None else None)
+                segs = rh.segments_of(rh.flatten(r.state)[before:])
+                moves = [(held_t, ts, segs[0]), (ts, out, segs[1] if len(segs) > 1 else [])] if ts is not None else [(held_t, out, segs[0])]
+                if ts is not None:
+                    held_t = ts
+                case = {"stream": "reconfigured-filter", "runtime": "python", "how": how, "t0": t0, "built_with_max_dt": m0, "tick": j,
+                        "max_dt": m, "reading_at": ts, "output": out}
+                ctx.case(case, True); ctx.traces += 1; ctx.count("stream=reconfigured-filter")
+                ctx.count("reconfigured-filter:" + ("unchanged" if m == m0 else "tightened" if m < m0 else "relaxed"))
+                for cur, tgt, dts in moves:
+                    bad = rh.plan_oracle(m, cur, tgt, dts)
+                    if bad:
+                        ctx.fail("plan:python:reconfigured", f"python, {how} (built with {m0!r}, now {m!r}): move {cur!r} -> {tgt!r}: {bad}",
+                                 dict(case, segment=[cur, tgt], steps=dts if len(dts) <= 50 else {"n": len(dts), "first": dts[:3], "last": dts[-3:]}))
+                        break
+
+
+def later_generation(ctx):
+    """several filters generated in ONE process: the maximum step of each is the one ITS configuration names - the declared default of
+    the back-end's Config when the configuration is absent or a dict that does not mention max_dt_sec - whatever the configurations
+    of the filters generated before it were. C++: the constant the generated header hands to the runtime (`Tag::max_dt_sec`) is read
+    back; Python: the generated filter is driven through a forward and a backward move. Private random stream (model shape only)"""
+    import dataclasses
+    import random
+    import cppgen
+    import ekf_h as eh
+    import fk
+    import gen
+    import sympy
+    from formak import cpp, python, runtime
+    rng = random.Random(1010)
+    d = gen.tame_definition(rng, n_state=2, n_control=1, n_sensors=1, max_readings=1)
+    d._kind = "ekf"
+    process, sensor = eh.make_noises(rng, d)
+
+    def declared_default(cls):
+        f = {x.name: x for x in dataclasses.fields(cls)}["max_dt_sec"]
+        return None if f.default is dataclasses.MISSING else float(f.default)
+
+    # (configuration handed to the generator, max_dt_sec it names or None = default): the first names a LARGE maximum
+    configs = [({"max_dt_sec": 0.5}, 0.5), (None, None), ({"innovation_filtering": 4.0}, None), ({"max_dt_sec": 0.03125}, 0.03125), ({}, None)]
+    # ---- C++
+    jobs, metas = [], []
+    main = ("#include <formak/{name}.h>\n#include <cstdint>\n#include <cstring>\n#include <iostream>\n"
+            "int main(){{ double d = verifns::ExtendedKalmanFilter::Tag::max_dt_sec; uint64_t u; std::memcpy(&u,&d,8); "
+            "std::cout << \"config.max_dt_sec=\" << u << std::endl; return 0; }}\n")
+    for i, (cfg, named) in enumerate(configs):
+        want = named if named is not None else declared_default(cpp.Config)
+        case = {"stream": "later-generation", "runtime": "cpp", "position": i, "config": repr(cfg), "earlier": [repr(c) for c, _ in configs[:i]]}
+        if want is None:
+            ctx.count("later-generation:no-declared-default"); continue
+        try:
+            g = cppgen.generate(d, process, sensor, {}, ctx.scratch, f"lg{i}", rng=random.Random(i), config_raw=(dict(cfg) if cfg is not None else None))
+        except Exception as e:
+            ctx.fail(f"cpp-generate-raises:{fk.exc_kind(e)}", repr(e)[:300], case); continue
+        if i == 0:
+            continue            # the first generation only sets the scene (a configuration that names its maximum: generated_max_dt)
+        jobs.append((g, d, main.format(name=f"lg{i}"))); metas.append((case, want))
+    for (case, want), (exe, err) in zip(metas, cppgen.build_many(jobs)):
+        ctx.case(case, True); ctx.count("stream=later-generation"); ctx.count("later-generation:cpp")
+        if exe is None:
+            ctx.fail("generated-cpp-does-not-compile", err[-300:], case); continue
+        got = rh.bitsf(cppgen.run_exe(exe, ["layout"])[0]["config.max_dt_sec"])
+        if got > want:
+            ctx.fail("plan:cpp:later-generation", f"the generated C++ filter tells the runtime max_dt_sec = {got!r}, configured {want!r} "
+                     f"(configuration {case['config']}, generated after {case['earlier']}): every whole step is longer than the configured maximum", case)
+        elif got < want:        # shorter steps than configured: not what was asked for, but within the bound this property states
+            ctx.count("later-generation:shorter-than-configured")
+    # ---- Python
+    for i, (cfg, named) in enumerate(configs):
+        want = named if named is not None else declared_default(python.Config)
+        case = {"stream": "later-generation", "runtime": "python", "position": i, "config": repr(cfg), "earlier": [repr(c) for c, _ in configs[:i]]}
+        if want is None:
+            ctx.count("later-generation:no-declared-default"); continue
+        try:
+            with fk.quiet():
+                ekf = python.compile_ekf(fk.ui_model(d), process_noise={sympy.Symbol(n): float(v) for n, v in process.items()},
+                                         sensor_models={k: dict(rd) for k, rd in d.sensors.items()},
+                                         sensor_noises={k: {r: float(v) for r, v in rd.items()} for k, rd in sensor.items()},
+                                         config=(dict(cfg) if cfg is not None else None))
+        except Exception as e:
+            ctx.fail(f"python-generate-raises:{fk.exc_kind(e)}", repr(e)[:300], case); continue
+        steps, inner = [], ekf.process_model
+
+        def recording(dt, state, covariance, control=None, _inner=inner, _steps=steps):
+            _steps.append(float(dt))
+            return _inner(dt, state, covariance, control)
+        ekf.process_model = recording
+        names = sorted(s.name for s in d.state)
+        state = ekf.State(**{n: 0.25 for n in names})
+        import numpy as np
+        mf = runtime.ManagedFilter(ekf, 2.0, state, ekf.Covariance.from_data(np.eye(len(names))))
+        control = ekf.Control(**{s.name: 0.5 for s in d.control})
+        ctx.case(case, True); ctx.count("stream=later-generation"); ctx.count("later-generation:python")
+        for tgt in (2.0 + 2.6 * want, 2.0 - 3.25 * want):
+            del steps[:]
+            mf.tick(tgt, control=control)
+            ctx.traces += 1
+            bad = rh.plan_oracle(want, 2.0, tgt, list(steps))
+            if bad:
+                ctx.fail("plan:python:later-generation", f"python filter generated with configuration {case['config']} after {case['earlier']} "
+                         f"(configured maximum {want!r}): move 2.0 -> {tgt!r}: {bad}", dict(case, segment=[2.0, tgt], steps=list(steps)))
+                break
 
 
 def two_segment_ticks(ctx, exe):
@@ -168,6 +322,8 @@ def two_segment_ticks(ctx, exe):
 def replay(ctx, data):
     for f in data.get("failing_inputs", []):
         c = f["case"]
+        if "current" not in c:      # a history stream: the case lists the whole move (segment, steps) already
+            print(f["identity"], "-", f.get("what")); continue
         got = [rh.bitsf(x[2:]) for x in rh.py_history(c["max_dt"], c["current"], [{"out": c["target"], "readings": []}])["outs"][0]]
         print("python now:", got, "->", rh.plan_oracle(c["max_dt"], c["current"], c["target"], got))
     return 0
